@@ -50,6 +50,10 @@ def summary(qualname):
     return deco
 
 
+class _Captured(Exception):
+    pass
+
+
 class Skip(Exception):
     """Raised by a unit for a size combination that lies outside its stated domain (not a vacuity error)."""
 
@@ -475,29 +479,37 @@ class Verifier:
         return self.lib.binop(ops[sym], a, b)
 
     # ------------------------------------------------------------------------------------ declarations
+    def _nm(self, name):
+        """inputs of the EARLIER call of a two-call history are independent symbols"""
+        return name + '__prior' if getattr(self, '_prior', False) else name
+
     def size(self, name, lo=0):
         if self.mode == 'bounded':
             v = self.sizes[name]
             if v < lo:
                 raise Infeasible()
-            self.inputs[name] = ('size', v)
+            self.inputs[self._nm(name)] = ('size', v)
             return v
+        name = self._nm(name)
         n = z3.Int(name)
         self.itp.assume(n >= lo)
         self.inputs[name] = ('int', n)
         return n
 
     def real(self, name):
+        name = self._nm(name)
         r = z3.Real(name)
         self.inputs[name] = ('real', r)
         return r
 
     def int(self, name):
+        name = self._nm(name)
         r = z3.Int(name)
         self.inputs[name] = ('int', r)
         return r
 
     def bool(self, name):
+        name = self._nm(name)
         r = z3.Bool(name)
         self.inputs[name] = ('bool', r)
         return r
@@ -508,6 +520,7 @@ class Verifier:
             shape = (shape,)
         shape = tuple(N(s) for s in shape)
         nd = len(shape)
+        name = self._nm(name)
         if dtype == 'complex':
             fre = z3.Function(name + '_re', *([T.I] * nd + [T.R]))
             fim = z3.Function(name + '_im', *([T.I] * nd + [T.R]))
@@ -556,8 +569,117 @@ class Verifier:
         return OpaqueFn(name, fn)
 
     # --------------------------------------------------------------------------------------------- running
-    def run(self, qualname, setup, max_paths=4000, opts=None):
-        """Yield an Outcome per feasible path of the real function `qualname` on the inputs produced by setup()."""
+    def run(self, qualname, setup, max_paths=4000, opts=None, histories=None):
+        """Yield an Outcome per feasible path of the real function `qualname` on the inputs produced by setup().
+
+        histories: two-call histories explored IN ADDITION to the call on a fresh process state, when (and only when) the call was
+        seen to leave state behind that outlives it -- module-level containers / globals / memo tables ('prior', 'again') or changed
+        attributes of an argument object ('again'):
+          'prior' : the same function is first called with INDEPENDENT symbolic arguments of the same kind case (fresh symbols
+                    <name>__prior); the postconditions are then stated for the second call (a cache keyed on too little fails here);
+          'again' : the function is first called with the SAME arguments (same objects); the postconditions are stated for the second
+                    call (a result that depends on what an earlier identical call left behind fails here).
+        In both, an array returned by the earlier call must not be overwritten by the later one."""
+        self._run_index = getattr(self, '_run_index', -1) + 1
+        cap = getattr(self, '_capture', None)
+        if cap is not None:
+            # capture mode (see _sibling_setups): hand back the setup closure of the run with the wanted ordinal, execute nothing
+            if self._run_index == cap['index']:
+                cap['setup'] = setup
+                cap['qualname'] = qualname
+                raise _Captured()
+            return
+        my_index = self._run_index
+        uo = self.unit.get('opts') or {}
+        if histories is not None:
+            hist = histories
+        elif 'histories' in uo:
+            hist = uo['histories']
+        else:
+            # a module-level function is a pure function of its arguments (C05: "returns the same result when called again"): both
+            # histories; a method / a composite operation may change its object by design: only the earlier call on OTHER arguments
+            fv = None
+            if isinstance(qualname, str):
+                try:
+                    fv = self.itp.get_function(qualname)
+                except Exception:
+                    fv = None
+            hist = ('prior', 'again') if isinstance(fv, FuncVal) and fv.cls is None else ('prior',)
+        variants = [('fresh', None, '')]
+        vi = 0
+        self._mod_state_seen = False
+        self._obj_state_seen = False
+        while vi < len(variants):
+            variant, psetup, tag = variants[vi]
+            vi += 1
+            yield from self._run_variant(qualname, setup, max_paths, opts, variant, psetup, tag)
+            if variant == 'fresh' and hist:
+                if 'prior' in hist and self._mod_state_seen:
+                    variants.append(('prior', setup, ''))
+                    # the earlier call may also have been a request of ANOTHER kind case of this unit (one case parameter changed)
+                    for ctag, csetup in self._sibling_setups(qualname, my_index):
+                        variants.append(('prior', csetup, ctag))
+                if 'again' in hist and (self._mod_state_seen or self._obj_state_seen):
+                    variants.append(('again', None, ''))
+                self._run_index = my_index
+        T.set_ctx(None)
+
+    def _sibling_setups(self, qualname, index, cap_n=10):
+        """setup closures of the unit's other kind cases that differ from the current case in exactly one parameter"""
+        out = []
+        cases = self.unit.get('cases') or []
+        for c in cases:
+            if len(out) >= cap_n:
+                break
+            if set(c) != set(self.case):
+                continue
+            diff = [k for k in c if c[k] != self.case[k]]
+            if len(diff) != 1:
+                continue
+            self._capture = dict(index=index)
+            self._run_index = -1
+            try:
+                self.unit['fn'](self, **c)
+            except _Captured:
+                pass
+            except Exception:
+                pass
+            cap, self._capture = self._capture, None
+            if cap.get('setup') is not None and cap.get('qualname') == qualname:
+                out.append(('%s=%s' % (diff[0], _tag(c[diff[0]])), cap['setup']))
+        return out
+
+    @staticmethod
+    def _obj_state(args):
+        """identity snapshot of the attributes of object arguments (to see whether a call left something on them)"""
+        snap = {}
+
+        def ver(v):
+            if isinstance(v, CArr):
+                return ('c', id(v.buf), v.buf.version)
+            if isinstance(v, BArr):
+                return ('b', id(v.a), tuple(id(e) for e in v.a.reshape(-1).tolist()))
+            return id(v)
+
+        def walk(v, depth=0):
+            if isinstance(v, ObjVal):
+                snap[id(v)] = {k: ver(a) for k, a in v.attrs.items()}
+            elif isinstance(v, (list, tuple)) and depth < 2:
+                for e in v:
+                    walk(e, depth + 1)
+            elif isinstance(v, dict) and depth < 2:
+                for e in v.values():
+                    walk(e, depth + 1)
+        walk(list(args))
+        return snap
+
+    def _call_root(self, f, args, kwargs):
+        itp = self.itp
+        if callable(f) and not isinstance(f, FuncVal):
+            return f(itp, *args, **kwargs)
+        return itp.call(f, list(args), dict(kwargs))
+
+    def _run_variant(self, qualname, setup, max_paths, opts, variant, prior_setup=None, prior_tag=''):
         itp = self.itp
         stack = [[]]
         f = itp.get_function(qualname) if isinstance(qualname, str) else qualname
@@ -567,8 +689,38 @@ class Verifier:
             prefix = stack.pop()
             cx = T.set_ctx(T.Ctx(decisions=prefix, mode=self.mode, opts=dict(self.unit.get('opts') or {}, **dict(opts or {}, root=qualname))))
             itp.depth = 0
+            itp.reset_module_state()
+            self._prior = False
             out = None
+            prior_info = None
             try:
+                reference = None
+                if variant != 'fresh':
+                    # reference outcome: the same call on a fresh module state and freshly built arguments (same symbols)
+                    spec0 = setup()
+                    a0, k0 = spec0 if isinstance(spec0, tuple) else ((), spec0)
+                    try:
+                        r0 = self._call_root(f, a0, k0)
+                        reference = (r0, list(a0) + [k0[k] for k in sorted(k0)])
+                    except (PyExc, PathEnd):
+                        reference = None
+                    itp.reset_module_state()
+                if variant == 'prior':
+                    self._prior = True
+                    try:
+                        pspec = (prior_setup or setup)()
+                    finally:
+                        self._prior = False
+                    pargs, pkwargs = pspec if isinstance(pspec, tuple) else ((), pspec)
+                    pcall = dict(pkwargs)
+                    for k, v in enumerate(pargs):
+                        pcall['arg%d' % k] = v
+                    pcall = {k: _freeze_arg(v) for k, v in pcall.items()}
+                    try:
+                        pres = self._call_root(f, pargs, pkwargs)
+                    except (PyExc, PathEnd):
+                        raise Infeasible()                      # histories whose earlier call failed are not histories of interest
+                    prior_info = dict(variant='prior', args=pcall, result=pres, versions=_result_versions(pres), tag=prior_tag)
                 spec = setup()
                 args, kwargs = spec if isinstance(spec, tuple) else ((), spec)
                 call_args = dict(kwargs)
@@ -576,20 +728,32 @@ class Verifier:
                     call_args['arg%d' % k] = v
                 # objects and arrays may be modified by the call: the counterexample must show the arguments as they were PASSED
                 call_args = {k: _freeze_arg(v) for k, v in call_args.items()}
+                if variant == 'again':
+                    try:
+                        pres = self._call_root(f, args, kwargs)
+                    except (PyExc, PathEnd):
+                        raise Infeasible()
+                    prior_info = dict(variant='again', args=call_args, result=pres, versions=_result_versions(pres))
+                before = self._obj_state(list(args) + list(kwargs.values())) if variant == 'fresh' else None
+                if variant != 'fresh':
+                    cx.cache.pop('opaque-calls', None)          # call logs the contracts inspect: of the call under test only
                 try:
-                    if callable(f) and not isinstance(f, FuncVal):
-                        res = f(itp, *args, **kwargs)
-                    else:
-                        res = itp.call(f, list(args), dict(kwargs))
+                    res = self._call_root(f, args, kwargs)
                     out = Outcome(self, cx, call_args, result=res, fn=qn)
                 except PyExc as e:
                     out = Outcome(self, cx, call_args, raised=e, fn=qn)
                 except PathEnd as e:
                     out = Outcome(self, cx, call_args, ended=e.why, fn=qn)
+                post_args = list(args) + [kwargs[k] for k in sorted(kwargs)]
+                if variant == 'fresh':
+                    if itp.module_state_written:
+                        self._mod_state_seen = True
+                    if before != self._obj_state(list(args) + list(kwargs.values())):
+                        self._obj_state_seen = True
             except Infeasible:
                 out = None
             finally:
-                pass
+                self._prior = False
             n_paths += 1
             if n_paths > max_paths:
                 raise EngineError('path limit exceeded in %s' % qualname)
@@ -602,6 +766,21 @@ class Verifier:
             if out is not None:
                 self.paths_seen += 1
                 cx.cache['phase'] = 'contract'
+                if prior_info is not None:
+                    out.history = prior_info
+                    out.path = variant + ('[%s]' % prior_tag if prior_tag else '') + ':' + out.path
+                    ok = _result_versions(prior_info['result']) == prior_info['versions']
+                    self.record(out, 'history/result-of-the-earlier-call-not-overwritten-by-this-call', [] if ok else out.hyps(), ok, 'frame', None,
+                                backend='alias-rule' if ok else None)
+                    if reference is not None and out.raised is None and out.ended is None:
+                        goals = _same_outcome(reference[0], out.result, 'result')
+                        for j, (x0, x1) in enumerate(zip(reference[1], post_args)):
+                            if isinstance(x0, ObjVal) and isinstance(x1, ObjVal) and '_values' in x0.attrs and '_values' in x1.attrs:
+                                goals += _same_outcome(x0.attrs['_values'], x1.attrs['_values'], 'values-of-argument-%d' % j)
+                        g = T.sand(*[c for _, c in goals]) if goals else True
+                        out.prove('history/outcome-equals-the-outcome-of-the-same-call-on-a-fresh-state', g, kind='frame')
+                    elif reference is not None and out.raised is not None:
+                        out.prove('history/no-exception-where-the-same-call-on-a-fresh-state-returns[%s]' % out.raised.kind, False, kind='frame')
                 # loop-invariant obligations and other side conditions are always proved
                 yield out
                 if cx.cache.get('vacuous'):
@@ -609,7 +788,6 @@ class Verifier:
                 for nm in cx.assumed:
                     self.assumed.add(nm)
             stack.extend(cx.pending)
-        T.set_ctx(None)
 
     def symbolic(self, setup):
         """Run spec-level code only (lemmas over contracts): one 'path' without a real function."""
@@ -663,13 +841,75 @@ class Verifier:
             res = dict(res, candidate=True)
         if getattr(out, 'replay_info', None):
             rec['replay_info'] = out.replay_info
+            if getattr(out, 'history', None) is not None:
+                # the property-specific oracle is told which two-call history the obligation belongs to
+                rec['replay_info'] = dict(out.replay_info, history=out.history['variant'], history_case=out.history.get('tag', ''))
         if res['verdict'] == 'refuted':
             model = (None if res.get('candidate') else self.nice_model(hyps, goal)) or res['model']
             rec['counterexample'] = self.counterexample(out, model, goal)
+        if res['verdict'] in ('unknown', 'refuted') and getattr(out, 'history', None) is not None and res['backend'] != 'skipped' \
+                and self.fail_counts.get('//history-candidates', 0) < 6:
+            # no verdict on an obligation of a two-call history: take ANY small model of the hypotheses (the history is feasible there)
+            # as a candidate history; it counts only if the real code, run on it, behaves differently after the earlier call
+            self.fail_counts['//history-candidates'] = self.fail_counts.get('//history-candidates', 0) + 1
+            model = self.generic_model(out)
+            if model is not None:
+                rec['history_candidate'] = self.counterexample(out, model, goal)
         if res['verdict'] != 'proved':
             self.fail_time += time.time() - t0
         self.records.append(rec)
         return rec
+
+    def generic_model(self, out):
+        """A small model of the PATH CONDITION (branch decisions, preconditions; the definitional facts and library axioms are left out:
+        they are nonlinear and z3 does not reliably honour its timeout on them) in GENERAL position: array elements follow a fixed
+        irregular non-zero pattern, the scalars of the earlier call differ from those of the call under test wherever the path
+        condition allows it.  Only an input for a replay that looks for a dependence on the earlier call on the REAL code -- the
+        replay decides, the model proves nothing.  Preferences are dropped one group at a time when they contradict the path condition."""
+        pattern = [Fraction(1), Fraction(-1, 2), Fraction(3, 4), Fraction(2), Fraction(-5, 4), Fraction(1, 4), Fraction(-3), Fraction(3, 2)]
+        prefs_arr, prefs_diff, bounds = [], [], []
+        j = 0
+        for nm, d in sorted(self.inputs.items()):
+            if d[0] == 'array':
+                _, shape, dtype, get = d
+                if dtype not in ('float', 'int'):
+                    continue
+                dims = []
+                for s_ in shape:
+                    if isinstance(s_, int):
+                        dims.append(s_)
+                    else:
+                        bounds.append(T.to_int_term(s_) <= 5)
+                        dims.append(5)
+                if all(x <= 8 for x in dims):
+                    for ix in np.ndindex(*dims):
+                        v = pattern[j % len(pattern)] * (1 + j // len(pattern))
+                        j += 1
+                        prefs_arr.append(T.to_z3(get(*ix)) == (T.to_z3(Q(v)) if dtype == 'float' else int(v * 4)))
+            elif d[0] == 'real':
+                bounds.append(z3.And(d[1] >= -8, d[1] <= 8))
+            elif d[0] == 'int':
+                bounds.append(z3.And(d[1] >= -6, d[1] <= 6))
+            if d[0] in ('real', 'int') and nm.endswith('__prior') and nm[:-7] in self.inputs and self.inputs[nm[:-7]][0] == d[0]:
+                prefs_diff.append(d[1] != self.inputs[nm[:-7]][1])
+        base = [h for h in out.cx.pc if T.is_z3(h) and not has_quant(h)] + bounds
+        sol = z3.Solver()
+        sol.set('timeout', 800)
+        sol.add(*base)
+        try:
+            if sol.check() != z3.sat:
+                return None
+            # greedy: keep every preference that is consistent with what has been kept so far
+            for pref in prefs_diff + prefs_arr:
+                sol.push()
+                sol.add(pref)
+                if sol.check() != z3.sat:
+                    sol.pop()
+            if sol.check() == z3.sat:
+                return sol.model()
+        except Exception:
+            pass
+        return None
 
     def nice_model(self, hyps, goal):
         """Model minimisation for replay: re-solve with every declared input restricted to small dyadic values
@@ -713,6 +953,9 @@ class Verifier:
             for nm, d in self.inputs.items():
                 ce['inputs'][nm] = self.eval_input(d, model)
             ce['args'] = {k: to_jsonable(concretize(v, model)) for k, v in out.args.items()}
+            h = getattr(out, 'history', None)
+            if h is not None:
+                ce['history'] = {'variant': h['variant'], 'earlier_call_args': {k: to_jsonable(concretize(v, model)) for k, v in h['args'].items()}}
             if out.raised is not None:
                 ce['predicted'] = {'raises': out.raised.kind}
             elif out.result is not None:
@@ -737,6 +980,54 @@ class Verifier:
                 a[ix] = to_jsonable(mval(model, get(*ix)))
             return a.tolist()
         return None
+
+
+def _same_outcome(a, b, label, depth=0):
+    """[(label, goal)]: structural equality of two call outcomes (arrays element-wise; symbolic shapes at a Skolem index)"""
+    if a is None and b is None:
+        return []
+    if is_arr(a) and is_arr(b):
+        if len(a.shape) != len(b.shape):
+            return [(label, False)]
+        if isinstance(a, BArr) and isinstance(b, BArr):
+            if a.a.shape != b.a.shape:
+                return [(label, False)]
+            return [(label, T.sand(*[T.seq(x, y) for x, y in zip(a.a.reshape(-1).tolist(), b.a.reshape(-1).tolist())]) if a.a.size else True)]
+        ks = [T.fresh('khist', T.I) for _ in a.shape]
+        rngc = T.sand(*[T.sand(T.sle(0, k), T.slt(k, d)) for k, d in zip(ks, a.shape)])
+        same_shape = T.sand(*[T.seq(x, y) for x, y in zip(a.shape, b.shape)])
+        return [(label, T.sand(same_shape, T.simplies(rngc, T.seq(A.reader(a)(*ks), A.reader(b)(*ks)))))]
+    if isinstance(a, (tuple, list)) and isinstance(b, (tuple, list)) and depth < 3:
+        if len(a) != len(b):
+            return [(label, False)]
+        out = []
+        for j, (x, y) in enumerate(zip(a, b)):
+            out += _same_outcome(x, y, '%s[%d]' % (label, j), depth + 1)
+        return out
+    if isinstance(a, ObjVal) and isinstance(b, ObjVal):
+        if a.cls is not b.cls:
+            return [(label, False)]
+        out = []
+        for k in ('_values', '_dt'):
+            if k in a.attrs and k in b.attrs:
+                out += _same_outcome(a.attrs[k], b.attrs[k], label + '.' + k, depth + 1)
+        return out
+    if T.is_scalar(a) and T.is_scalar(b) and a is not None and b is not None:
+        if isinstance(a, str) or isinstance(b, str):
+            return [(label, a == b)]
+        return [(label, T.seq(a, b))]
+    return []
+
+
+def _result_versions(r, depth=0):
+    """write-version fingerprint of the arrays in a call result (to see whether a later call overwrote them)"""
+    if isinstance(r, CArr):
+        return ('c', id(r.buf), r.buf.version)
+    if isinstance(r, BArr):
+        return ('b', tuple(id(e) for e in r.a.reshape(-1).tolist()))
+    if isinstance(r, (list, tuple)) and depth < 3:
+        return tuple(_result_versions(e, depth + 1) for e in r)
+    return None
 
 
 def _freeze_arg(v, depth=0):
